@@ -431,14 +431,18 @@ class PSBTView:
         return self._hash_outputs
 
     def hash_amounts(self, amounts):
-        if self._hash_amounts is None:
-            self._hash_amounts = hash_amounts(amounts)
-        return self._hash_amounts
+        # the cached digest is valid only for the amounts it was computed from
+        key = tuple(amounts)
+        if self._hash_amounts is None or self._hash_amounts[0] != key:
+            self._hash_amounts = (key, hash_amounts(amounts))
+        return self._hash_amounts[1]
 
     def hash_script_pubkeys(self, script_pubkeys):
-        if self._hash_script_pubkeys is None:
-            self._hash_script_pubkeys = hash_script_pubkeys(script_pubkeys)
-        return self._hash_script_pubkeys
+        # the cached digest is valid only for the scripts it was computed from
+        key = tuple([sc.data for sc in script_pubkeys])
+        if self._hash_script_pubkeys is None or self._hash_script_pubkeys[0] != key:
+            self._hash_script_pubkeys = (key, hash_script_pubkeys(script_pubkeys))
+        return self._hash_script_pubkeys[1]
 
     def sighash_taproot(
         self,
